@@ -17,3 +17,33 @@ Proof.
   exists [0%Z], [1%Z; 2%Z], [(0%N, 0%N); (0%N, 1%N)], [(0%N, 1%N); (0%N, 0%N)].
   split; [apply perm_swap|vm_compute; discriminate].
 Qed.
+
+(* The random identifiers einx draws for unnamed axes and ellipsis repetitions only name axes.  For the modelled lowerings
+   (Model/Lower.v: rearrangements, element-wise calls, reductions, dot on the matmul path) any injective renaming of the
+   axes - any other draw - yields the identical term: the same operations, permutations, axis= literal and shapes
+   (Proofs/RenameProofs.v). *)
+From Coq Require String.
+From EinxV Require Import Spec.LoopSem Model.Opt Model.Lower Proofs.LoopSemProofs Proofs.RenameProofs.
+Theorem C16_lowering_does_not_depend_on_the_drawn_identifiers :
+  forall (f : N -> N), (forall a b, f a = f b -> a = b) ->
+  (forall k din dout, lower_rearrange k (map (prename f) din) (map (prename f) dout) = lower_rearrange k din dout) /\
+  (forall fn ins dout, lower_elementwise fn (map (map (prename f)) ins) (map (prename f) dout) = lower_elementwise fn ins dout) /\
+  (forall fn din dout, lower_reduce fn (map (prename f) din) (map (prename f) dout) = lower_reduce fn din dout) /\
+  (forall d1 d2 dout, lower_dot (map (prename f) d1) (map (prename f) d2) (map (prename f) dout) = lower_dot d1 d2 dout).
+Proof.
+  intros f Hinj. repeat split.
+  - exact (lower_rearrange_rename f Hinj).
+  - exact (lower_elementwise_rename f Hinj).
+  - exact (lower_reduce_rename f Hinj).
+  - exact (lower_dot_rename f Hinj).
+Qed.
+Print Assumptions C16_lowering_does_not_depend_on_the_drawn_identifiers.
+
+Example C16_renaming_example :
+  (* "a ([b] c) -> c a" with the names 1,2,3 and with the names 901,17,5 *)
+  let f := fun n : N => match n with 1 => 901 | 2 => 17 | 3 => 5 | n => n + 1000 end%N in
+  let din := [PAx 1 2 false; PFl [PAx 2 3 true; PAx 3 4 false]]%N in
+  let dout := [PAx 3 4 false; PAx 1 2 false]%N in
+  map (prename f) din = [PAx 901 2 false; PFl [PAx 17 3 true; PAx 5 4 false]]%N /\
+  lower_reduce String.EmptyString (map (prename f) din) (map (prename f) dout) = lower_reduce String.EmptyString din dout.
+Proof. vm_compute. split; reflexivity. Qed.
